@@ -850,7 +850,7 @@ def tier_c(run, thorough):
             for (n, p) in shapes[:2]:
                 bd.check(orc_estimators, dict(seed=30 + seed, n=n, p=p, dof=None, scale=sc, dtype='float32'), 'units:float32,moderate',
                          function='_covariance_')
-        if False:  # pending triage: typed:float32,units:extreme
+        if True:   # repaired in /repo add66a9b (was pending triage): typed:float32,units:extreme
             # float32 residuals in units of 1e-12 / 1e+12 (e.g. MEG data in tesla): the fourth powers xt_x ** 2 of the shrinkage
             # estimators are taken in float32 and under- / overflow: shrinkage_eye leaves [0,1], shrinkage_diag does not shrink
             for sc in (1e-12, 1e12):
@@ -866,7 +866,7 @@ def tier_c(run, thorough):
         for (n, p) in ((6, 3), (4, 5)):
             bd.check(orc_estimators, dict(seed=50 + seed, n=n, p=p, dof=None, dup_channel=[0, p - 1]), 'duplicate-channel',
                      function='_covariance_diag')
-        if False:  # pending triage: zero-variance-channel
+        if True:   # repaired in /repo f1914bdf (was pending triage): zero-variance-channel
             # one constant channel (or a single residual row with dof passed in: all channels): shrinkage_diag divides by the
             # standard deviations, lambda becomes NaN and the WHOLE estimate (diagonal included) is NaN
             for (n, p) in ((6, 3), (4, 5)):
@@ -911,7 +911,7 @@ def tier_c(run, thorough):
                 for sc in (1e-26, 1e-12, 1e6, 1e12):
                     bd.check(orc_dataset, dict(seed=10 + seed, C=C, R=R, P=P, order=order, scale=sc), 'units:float64',
                              function='cov_from_measurements')
-                if False:  # pending triage: typed:integer-dataset
+                if True:   # repaired in /repo add66a9b (was pending triage): typed:integer-dataset
                     # a Dataset keeps integer measurements as they are; cov_from_unbalanced (matrix -= means[inverse]) and
                     # cov_from_measurements (_check_demean: matrix -= np.mean(...)) subtract float means IN PLACE -> UFuncTypeError
                     for dt in _INT_DTYPES:
@@ -959,7 +959,7 @@ def tier_c(run, thorough):
                 for sc in (1e-12, 1e12):
                     bd.check(orc_unbalanced, dict(seed=L, labels=list(labels), P=2, scale=sc), 'units:float64',
                              function='cov_from_unbalanced')
-                if False:  # pending triage: typed:integer-dataset
+                if True:   # repaired in /repo add66a9b (was pending triage): typed:integer-dataset
                     bd.check(orc_unbalanced, dict(seed=L, labels=list(labels), P=2, dtype='int16'), 'typed:integer-dataset',
                              function='cov_from_unbalanced')
     bd.done()
